@@ -560,8 +560,24 @@ pub fn populate(
     nssec: &NamespaceSecret,
     entries: &[SignedEntry],
 ) -> R<Model> {
+    populate_cap(rt, store, nssec, entries, false)
+}
+
+/// Like `populate`; with `read_only` the store only gets the read capability of the document (it can still take every
+/// validly signed entry from peers).
+pub fn populate_cap(
+    rt: &tokio::runtime::Runtime,
+    store: &mut Store,
+    nssec: &NamespaceSecret,
+    entries: &[SignedEntry],
+    read_only: bool,
+) -> R<Model> {
     let ns = nssec.id();
-    es(store.import_namespace(nssec.clone().into()))?;
+    if read_only {
+        es(store.import_namespace(iroh_docs::Capability::Read(ns)))?;
+    } else {
+        es(store.import_namespace(nssec.clone().into()))?;
+    }
     let mut model = Model::default();
     rt.block_on(async {
         let mut r = es(store.open_replica(&ns))?;
